@@ -100,6 +100,11 @@ class DirectEval:
     def idx(self, i):
         if isinstance(i, int):
             return i
+        if "reg" in i:  # index held in a register handle (a RegFuture used as index)
+            v = self.regs.get(i["reg"])
+            if v is None:
+                raise HostFault(f"register handle {i['reg']} used as index before it holds a value")
+            return v
         if "at" in i:   # index held in another array entry (a Future used as index)
             return self.read({"kind": "entry", "array": i["at"]["array"], "idx": i["at"]["idx"]})
         return self.vars[i["var"]]
